@@ -27,32 +27,45 @@ COQ_TIMEOUT = 1500
 RULE = ("reaction networks in both views (bipartite with / without stoichiometry, species graph) together with declared "
         "variants (species renamed, reactions reordered, ids regenerated) and near misses; exhaustive: every network of "
         "<= 2 reactions over the molecularity-<=2 alphabet on 3 species up to species permutation, each with ALL its "
-        "species permutations; seeded random <= 6 species x 5 reactions; rings / stars of identical reactions with "
-        "stoichiometry perturbations; a case is non-trivial when some view has >= 4 nodes and either a non-singleton "
-        "cell survives the first refinement (individualisation needed) or a non-trivial automorphism exists; "
+        "species permutations; seeded random <= 6 species x 5 reactions; rings (2..6; plain / shared catalyst / private "
+        "catalyst per step / dimer / reversible) and stars of identical reactions with stoichiometry perturbations under "
+        "many renamings; 11-reaction networks (two-digit ids); sequences of analyses with different options on ONE "
+        "hypergraph object, mutated in between; a case is non-trivial when some view has >= 4 nodes and either a "
+        "non-singleton cell survives the first refinement (individualisation needed) or a non-trivial automorphism exists; "
         "distinct = distinct (configuration, list of networks)")
 EXHAUSTIVE = {"quick": True, "thorough": True}
 EXPLANATION = ("exhaustive sub-space (both tiers): all networks with <= 2 reactions over the 99 reactions with <= 2 molecules per "
                "side on species {A,B,C}, one case per class under species permutation carrying all distinct permuted "
                "copies, in each of the three configurations (bipartite+stoich, bipartite-stoich, species view). "
-               "Theorems are about the Gallina model (cache-free refinement, IR search over lib/IRCore leaves); the model is "
-               "tied to the code by comparing the view, every _refine argument/result, the canonical permutation and label, "
-               "all minimal leaves, orbits, canonical graph and the VF2 count/orbits on every case.")
+               "Theorems (props/C18.v) are about the Gallina model and hold for ALL views: canonical graph = view relabelled by a "
+               "bijection onto k+1..k+n; identical canonical graph under injective renaming and re-ordering; equal canonical graphs "
+               "force isomorphic views; the minimal leaves enumerate the structure-preserving self-maps without repetition. The "
+               "model is tied to the code by comparing the view, every _refine argument/result, the canonical permutation and label, "
+               "all minimal leaves, orbits, canonical graph, the VF2 count/orbits and the decidable premises on every case.")
 TRUSTED_BASE = [
     "Coq 8.16.1 kernel + vm_compute (no native_compute)",
     "hand-written model coq/model/C18_Model.v tied to synkit/CRN/Topo/{canon,automorphism}.py and the two view converters "
-    "by the per-run correspondence (view, every _refine call, permutation, label, leaves, orbits, canonical graph, VF2 count)",
+    "by the per-run correspondence (view, every _refine call, permutation, label, leaves, orbits, canonical graph, VF2 count, premises)",
     "harness encoders harness/props/C18.py (order-preserving interning of node ids: rank in Python string order; kind/role codes)",
     "networkx DiGraph semantics (add_node/add_edge update, relabel_nodes) and DiGraphMatcher.isomorphisms_iter as an "
-    "enumerator of the self-isomorphisms (explicit premise of C18_vf2_count; compared with the verified enumerator on every case)",
+    "enumerator of the self-isomorphisms (explicit premise of C18_vf2_count: it returns as many mappings as the model's verified "
+    "reference enumerator; compared on every case)",
     "CPython str/tuple ordering",
 ]
-ASSUMPTIONS = ["species labels are disjoint from reaction ids (the views put both in one namespace; the collision is the known finding C18:view-id-collision)",
-               "default node_attr_keys=('kind',) and edge_attr_keys=('role','stoich'); integer_ids=False",
+ASSUMPTIONS = ["species labels are disjoint from reaction ids (the views put both in one namespace; the collision is the known finding "
+               "C18:view-id-collision, theorem C18_species_renaming_refuted); clause 2 is therefore proved for renamings of the VIEW's nodes",
+               "default node_attr_keys=('kind',) and edge_attr_keys=('role','stoich'); integer_ids=False (integer_ids=True only inside the "
+               "one-object sequences, compared with a fresh object)",
                "stoichiometric coefficients are positive integers", "no max_depth / timeout given to the canonicaliser"]
-TESTED_NOT_PROVED = ["WLCanonicalizer (documented as approximate): its canonical graph is isomorphic to the view and its colour cells "
+TESTED_NOT_PROVED = ["orbit sets: the slot-based union-find of _orbits_from_perms (and the VF2 tool's union-find) against the relation "
+                     "'exchangeable by a structure-preserving self-map' (C18_orbits_partial proves that this relation is the one read off the "
+                     "minimal leaves; the union-find step is compared with brute force and with the model on every case)",
+                     "re-ordering the reactions / regenerating the ids of a NETWORK re-presents its view (the theorems are about views; the "
+                     "views of declared variants are compared by the oracle)",
+                     "WLCanonicalizer (documented as approximate): its canonical graph is isomorphic to the view and its colour cells "
                      "never split a true orbit (oracle only)",
-                     "VF2 enumerates exactly the self-isomorphisms (premise of C18_vf2_count, compared per case)"]
+                     "VF2 enumerates exactly the self-isomorphisms (premise of C18_vf2_count, compared per case)",
+                     "graph()/orbits()/has_nontrivial_automorphism()/canonical()/iter()/detect_automorphisms() agree with summary() (oracle)"]
 
 KIND = {"reaction": 0, "species": 1}
 ROLE = {None: -1, "product": 0, "reactant": 1}
@@ -333,6 +346,42 @@ def _answers(H, view, st, intids):
                 vf2_count=A["automorphism_count"], vf2_orbits=sorted(sorted(map(repr, o)) for o in A["orbits"]))
 
 
+def _api_consistency(H, inc, st, s, A, auts, where):
+    """graph()/orbits()/has_nontrivial_automorphism()/canonical() of the canonicaliser and iter()/
+    has_nontrivial_automorphism()/detect_automorphisms() of the VF2 tool against summary() and the brute-force reference"""
+    from synkit.CRN.Topo.canon import CRNCanonicalizer, canonical
+    from synkit.CRN.Topo.automorphism import CRNAutomorphism, detect_automorphisms
+    out = []
+
+    def bad(what, got, exp):
+        out.append(dict(clause="api-consistency", detail="%s = %r, expected %r: %s" % (what, got, exp, where)))
+
+    C2 = CRNCanonicalizer(H, include_rule=inc, include_stoich=st)
+    kg = _keyed_graph(C2.graph())
+    if kg != _keyed_graph(s["canon_graph"]):
+        bad("CRNCanonicalizer.graph()", kg, _keyed_graph(s["canon_graph"]))
+    o2 = {frozenset(o) for o in C2.orbits()}
+    if o2 != {frozenset(o) for o in s["orbits"]}:
+        bad("CRNCanonicalizer.orbits()", sorted(map(sorted, o2)), sorted(map(sorted, s["orbits"])))
+    if C2.has_nontrivial_automorphism() != (len(auts) > 1):
+        bad("CRNCanonicalizer.has_nontrivial_automorphism()", C2.has_nontrivial_automorphism(), len(auts) > 1)
+    C3 = canonical(H, include_rule=inc, include_stoich=st)
+    if _keyed_graph(C3.graph()) != _keyed_graph(s["canon_graph"]):
+        bad("canonical(...).graph()", _keyed_graph(C3.graph()), _keyed_graph(s["canon_graph"]))
+    A2 = CRNAutomorphism(H, include_rule=inc, include_stoich=st)
+    maps = list(A2.iter())
+    ref = {tuple(sorted(m.items(), key=repr)) for m in auts}
+    got = {tuple(sorted(m.items(), key=repr)) for m in maps}
+    if len(maps) != len(auts) or got != ref:
+        bad("CRNAutomorphism.iter() mappings", len(maps), len(auts))
+    if A2.has_nontrivial_automorphism(timeout_sec=None) != (len(auts) > 1):
+        bad("CRNAutomorphism.has_nontrivial_automorphism()", A2.has_nontrivial_automorphism(timeout_sec=None), len(auts) > 1)
+    D = detect_automorphisms(H, include_rule=inc, include_stoich=st, max_count=None, timeout_sec=None)
+    if D["automorphism_count"] != len(auts) or {frozenset(o) for o in D["orbits"]} != {frozenset(o) for o in A["orbits"]}:
+        bad("detect_automorphisms()", D["automorphism_count"], len(auts))
+    return out[:1]
+
+
 def _oracle_seq(case):
     """every analysis of the sequence on the shared, later mutated, hypergraph object must answer exactly what a fresh
     object built for that network answers (view, canonical graph, counts, orbits)"""
@@ -411,6 +460,9 @@ def oracle(case):
                 fails.append(dict(clause="wl-splits-orbit", detail="WL colour cells %r split the true orbit %r: %s"
                                   % (sorted(map(sorted, wl_cells)), sorted(o), where)))
                 break
+        # (4b) the other public entry points must tell the same story as summary() (not for the bulk exhaustive family)
+        if case.get("kind") != "exh3":
+            fails += _api_consistency(H, inc, st, s, A, auts, where)
         data.append((G, _keyed_graph(Gc), where))
     # (5) identical canonical graphs exactly for isomorphic views; declared variants must be identical
     collide = any(_collides(n) for n in case["nets"])
@@ -900,12 +952,20 @@ def gen_cases(tier, rng):
     return cases
 
 
-LEVEL_TEXT = ("Machine-checked proof (Coq) over an executable model of CRNCanonicalizer / CRNAutomorphism and the two network views: "
-              "the individualisation-refinement search is an instance of the generic, proved IR library (refinement and leaf "
-              "enumeration equivariant under injective relabelling, minimum label permutation-invariant). The model is tied to the "
-              "Python code on every run by comparing the view graph, every _refine argument/result, the canonical permutation and "
-              "label string, all minimal leaves, orbits, canonical graph and the VF2 count/orbits, on an exhaustive small scope "
-              "plus seeded random, ring/star and adversarially named networks.")
+LEVEL_TEXT = ("Machine-checked proof (Coq, 15 theorems, closed under the global context) over an executable model of CRNCanonicalizer / "
+              "CRNAutomorphism and the two network views, for ALL views: the canonical graph is the view relabelled by a bijection onto "
+              "k+1..k+n (clause 1); a view renamed by a map injective on its nodes and presented in any other node/arc order gets the same "
+              "minimal label and the identical canonical graph (clause 2: signature/label/initial partition equivariant, generic IR leaf "
+              "enumeration equivariant, label string injective incl. decimal rendering, self-loops recovered from the refinement); equal "
+              "canonical graphs force isomorphic views (clause 3); the minimal leaves are a duplicate-free enumeration of the structure-"
+              "preserving self-maps, and so is the reference enumerator the VF2 tool is compared with (clause 4, counts); fuel sufficiency "
+              "of search and refinement; every view of a network lies in the theorems' domain. Orbits: only the relation is proved, the "
+              "union-find is tested. The model is tied to the Python code on every run by comparing the view graph, every _refine "
+              "argument/result, the canonical permutation and label string, all minimal leaves, orbits, canonical graph, the VF2 "
+              "count/orbits and the decidable premises, on an exhaustive small scope plus seeded random, ring/star, long, adversarially "
+              "named networks and one-object analysis sequences.")
 LEVEL_NOTE = ("Trusted: Coq kernel + vm_compute; the hand-written model and the harness interning (rank in Python string order); "
               "networkx DiGraph/relabel_nodes semantics; VF2 as an enumerator of self-isomorphisms (explicit premise, monitored). "
-              "Tested, not proved: WLCanonicalizer (approximate by its documentation) only for 'isomorphic to the view' and 'never splits a true orbit'.")
+              "Tested, not proved: orbit union-find; network-level re-ordering => view re-presentation; WLCanonicalizer (approximate by its "
+              "documentation) only for 'isomorphic to the view' and 'never splits a true orbit'. Known finding C18:view-id-collision: a species "
+              "label equal to a reaction id merges two view nodes (refuted-style witness theorem).")
